@@ -116,7 +116,7 @@ def check(ctx):
         ps = [dict(v["input"]["program"], features=[], ast=None)]
     else:
         cast_table_tie(ctx)
-        n = 4000 if ctx.thorough else 700
+        n = 12000 if ctx.thorough else 700
         ps = progs.gen_programs(ctx, n)
         ill = []
         for p in ps[: n // 2]:
@@ -130,7 +130,7 @@ def check(ctx):
     progs.feature_stats(ctx, ps)
     if not ctx.replay:
         # the evaluator tie: outcome (document, located error, panic site) of eval.rs = outcome of Model/Eval.v
-        k = 1500 if ctx.thorough else 300
+        k = 4500 if ctx.thorough else 300
         evaltie.run(ctx, ps[:k // 2] + ps[-k // 2:] + evaltie.known_witnesses() + evaltie.repo_corpus())
     res = progs.compile_many(ps)
     seen = set()
